@@ -17,6 +17,7 @@ struct Relay {
 	bool shuffle = false, reencode = false, idrewrite = false, ttl_rewrite = false;
 	bool text_a = false;                              // answer-side transformations also hit the text of TXT answers
 	bool ref_reencode = false;                        // answers re-encoded by the reference encoder (C09: reference encoder -> real client)
+	bool nat = false;                                 // queries leave the relay from the relay's own address (a resolver): the server sees another source than the client's raw frames have
 	bool bypass = false;
 	uint64_t nq = 0, na = 0;
 	std::map<std::pair<std::string, uint16_t>, uint16_t> idmap;
